@@ -5,6 +5,8 @@
 #include <csetjmp>
 #include <cstdarg>
 #include <fcntl.h>
+#include <malloc.h>
+#include <sys/auxv.h>
 #include <signal.h>
 #include <spawn.h>
 #include <sys/stat.h>
@@ -26,6 +28,7 @@ int __real_access(const char *, int);
 int __real_lstat(const char *, struct stat *);
 int __real_stat(const char *, struct stat *);
 char *__real_getenv(const char *);
+unsigned long __real_getauxval(unsigned long);
 int __real_nanosleep(const struct timespec *, struct timespec *);
 int __real_usleep(useconds_t);
 unsigned __real_sleep(unsigned);
@@ -952,6 +955,18 @@ char *__wrap_getenv(const char *name) {
 	return nullptr;
 }
 
+// the path the driver was executed as (AT_EXECFN): what the caller passed to execve - argv[0] if it names a path,
+// otherwise the PATH entry it was found in; it need not be where the binary is (a symbolic link such as /usr/bin/cc)
+unsigned long __wrap_getauxval(unsigned long type) {
+	if (!IN_DRIVER) return __real_getauxval(type);
+	if (type != AT_EXECFN) return __real_getauxval(type);
+	static std::string fn;
+	const std::string &a0 = K->sc->argv[0];
+	fn = a0.find('/') != std::string::npos ? a0 : "/usr/local/bin/" + (a0.empty() ? std::string("cproc") : a0);
+	K->probe("driver_read_AT_EXECFN");
+	return (unsigned long)(uintptr_t)fn.c_str();
+}
+
 // sleeping is a scheduling point and costs simulated time; nothing else
 int __wrap_nanosleep(const struct timespec *a, struct timespec *b) { if (!IN_DRIVER) return __real_nanosleep(a, b); K->enter("sleep"); K->probe("driver_slept"); return 0; }
 int __wrap_clock_nanosleep(clockid_t c, int fl, const struct timespec *a, struct timespec *b) { if (!IN_DRIVER) return __real_clock_nanosleep(c, fl, a, b); K->enter("sleep"); K->probe("driver_slept"); return 0; }
@@ -1005,15 +1020,33 @@ void __wrap__exit(int status) {
 	__real__exit(status);
 }
 
+// what fresh memory contains is part of the scenario, never the worker's history
+static void heap_fill(void *p, size_t n) {
+	static const int pat[3] = {0x00, 0xff, 0xa5};
+	memset(p, pat[(unsigned)K->sc->heap_fill % 3], n);
+}
 void *__wrap_malloc(size_t n) {
 	if (K && K->in_driver) {
 		if (int e = K->fault("alloc")) { errno = e; return nullptr; }
+		void *p = __real_malloc(n ? n : 1);
+		if (p) heap_fill(p, malloc_usable_size(p));  // the whole block: its slack is copied by a later realloc
+		return p;
 	}
 	return __real_malloc(n);
 }
 void *__wrap_realloc(void *p, size_t n) {
 	if (K && K->in_driver) {
 		if (int e = K->fault("alloc")) { errno = e; return nullptr; }
+		// always move: the new block is filled first, then the old contents are copied over
+		void *q = __real_malloc(n ? n : 1);
+		if (!q) return nullptr;
+		heap_fill(q, malloc_usable_size(q));
+		if (p) {
+			size_t old = malloc_usable_size(p);
+			memcpy(q, p, old < n ? old : n);
+			free(p);
+		}
+		return q;
 	}
 	return __real_realloc(p, n);
 }
